@@ -17,7 +17,8 @@ Ty == [c |-> [size |-> 1, align |-> 1], s |-> [size |-> 2, align |-> 2], i |-> [
        d |-> [size |-> 8, align |-> 8], p |-> [size |-> 8, align |-> 8], l |-> [size |-> 16, align |-> 16],
        a |-> [size |-> 3, align |-> 1], n |-> [size |-> 8, align |-> 4], e |-> [size |-> 4, align |-> 4],
        z |-> [size |-> 0, align |-> 4], w |-> [size |-> 24, align |-> 8],
-       f |-> [size |-> 8, align |-> 8]]         \* int_fast16_t: as wide as the C library says (glibc x86_64: long)
+       f |-> [size |-> 8, align |-> 8],
+       v |-> [size |-> 16, align |-> 16]]       \* float vector_size(16): 16-aligned in C, an array of f32 in Rust         \* int_fast16_t: as wide as the C library says (glibc x86_64: long)
 Codes == DOMAIN Ty
 Plain == Codes \ {"z"}
 
